@@ -62,7 +62,7 @@ PROPERTY_META = {
         deadline_quick=420, deadline_thorough=1700, engine='E4-TSE', design_ref='4/E4, 5/C19',
         technique='stateless exploration of ALL schedules with <= P preemptions of real threads of the tsan-instrumented library under a serialising scheduler (own __tsan runtime), with an in-schedule vector-clock happens-before race monitor; races confirmed by a free-running ThreadSanitizer pass',
         level_text='Documented thread-safe surface (shared SpaceInformation checkMotion/isValid with counters, shared GNAT queries, RNG and StateSpace construction, addSolutionPath vs. readers, logging vs. '
-                   'handler switching, terminate() vs. eval(), the periodic termination thread) and the multi-threaded planners pRRT, pSBL, CForest, PRM, AnytimePathShortening with the C01 oracle: every '
+                   'handler switching, terminate() vs. eval(), the periodic termination thread), GoalLazySamples (sampling thread vs. readers, and under RRT) and the multi-threaded planners pRRT, pSBL, CForest, PRM, AnytimePathShortening with the C01 oracle: every '
                    'schedule with <= 1 (thorough 2-3) preemptions, scheduling points at every synchronisation operation, shared atomic and racy access, to the fixpoint of the site sets; each schedule '
                    'in a fresh process; deadlock/livelock detection under virtual time.',
         level_note='Trusted: libvsrt (scheduler, interposers, vector-clock monitor), gcc -fsanitize=thread instrumentation. Sequential consistency only; accesses inside uninstrumented libraries are '
